@@ -385,13 +385,11 @@ func vRunCase3(t *testing.T, c vCase) (msg string) {
 			if !bytes.Equal(e.Encode(), vSec1(want, true)) {
 				return "Encode of the product differs from the oracle's SEC1 encoding"
 			}
-			if vScalarVal(sc).Cmp(k) != 0 {
-				return "Multiply changed its scalar argument " + c.A
-			}
 		}
 	case "multiply-nil":
+		// C01 is stated on encodings: whether the coordinates left behind are a clean (0:1:0) is C05 / C10's business
 		e := vElementOf(vG(), big.NewInt(3))
-		if got, ok := vPointOf(e.Multiply(nil)); !ok || !got.inf {
+		if r := e.Multiply(nil); r != e || !e.IsIdentity() || !bytes.Equal(e.Encode(), []byte{0}) {
 			return "Multiply(nil) is not the identity"
 		}
 	default:
